@@ -50,6 +50,7 @@ def default_doc():
         order="sorted",
         autoplay=False,
         split=False,
+        tempo_own_packages=False,
     )
 
 
@@ -60,11 +61,13 @@ def ax_bpm(v):
     return f
 
 
-def ax_tempo(evs, all_diffs=False):
+def ax_tempo(evs, all_diffs=False, own_packages=False):
     def f(doc):
         for d in range(3 if all_diffs else 1):
             for m, p, v in evs:
                 doc["ev"][d].append((m, p, 1, "b", v))
+        if own_packages:
+            doc["tempo_own_packages"] = True
 
     return f
 
@@ -132,6 +135,7 @@ AXES = [
             ("after_last", ax_tempo([(5, F(0), 99.0)])),
             ("m1+after", ax_tempo([(1, F(0), 75.0), (6, F(1, 2), 50.0)])),
             ("all_diffs", ax_tempo([(1, F(0), 60.0)], True)),
+            ("interleaved-packages", ax_tempo([(0, F(1, 2), 240.0), (0, F(1, 4), 60.0), (1, F(3, 4), 90.0), (1, F(1, 3), 150.0)], False, True)),
         ],
     ),
     ("slots", [(str(n), ax_slots(n)) for n in (2, 3, 4, 8, 12, 16)]),
@@ -201,6 +205,8 @@ def to_packages(doc):
             parts = [evs]
             if doc["split"] and di == 0 and len(evs) >= 2 and all(k == "n0" for _, k, _ in evs):
                 parts = [evs[:1], evs[1:]]
+            if doc["tempo_own_packages"] and ch == 1:
+                parts = [[e] for e in evs]  # one package per tempo event, in the order given (positions interleave)
             for part in parts:
                 n = 1
                 for p, _, _ in part:
